@@ -22,7 +22,8 @@ def census(lib):
         if not m:
             continue
         flags, sec, size, name = m.group(1), m.group(2), int(m.group(3), 16), m.group(4)
-        if "O" not in flags or size == 0 or name.startswith("__"):
+        tls = re.match(r"^\.(tdata|tbss)(\.|$)", sec) is not None      # objdump gives thread-local objects no 'O' flag; per-thread static storage is hidden mutable state all the same
+        if ("O" not in flags and not (tls and "d" not in flags)) or size == 0 or name.startswith("__"):
             continue
         if re.match(r"^\.(data|bss|tdata|tbss)(\.|$)", sec) and not sec.startswith(".data.rel.ro"):
             syms.append("%s:%s(%d bytes)" % (cur.split("-")[-1], name, size))
